@@ -2,9 +2,16 @@ package ecdsa
 
 import (
 	stdecdsa "crypto/ecdsa"
+	"crypto/elliptic"
 	"crypto/sha256"
 	"crypto/sha512"
+	"errors"
 	"hash"
+	"io"
+	"math/big"
+	"slices"
+
+	internalecdsa "github.com/tink-crypto/tink-go/v2/internal/signature/ecdsa"
 
 	"github.com/tink-crypto/tink-go/v2/internal/verifrt"
 	"github.com/tink-crypto/tink-go/v2/internal/verifspec"
@@ -60,6 +67,128 @@ func VerifH_sig_ecdsa_der() {
 			cand[i] = want[i]
 		}
 		verifrt.Assert(v.Verify(cand, msg) != nil, "truncated / extended signature rejected, no panic")
+	}
+	verifrt.Reach("end")
+}
+
+// ---- IEEE P1363 encoding
+
+type stubCurve struct {
+	elliptic.Curve
+	p *elliptic.CurveParams
+}
+
+func (c stubCurve) Params() *elliptic.CurveParams { return c.p }
+
+// ideal ECDSA in (r, s) form: one deterministic pair per hash, top bytes non-zero (leading
+// zeros of r and s are covered at the encoding level by VerifH_p1363_*); the DER layer
+// (encoding/asn1, reflection) is replaced by an injective fixed-width framing.
+func idealRS(half int, hash []byte) ([]byte, []byte) {
+	r, s := verifrt.UF("ECDSAR", half, hash), verifrt.UF("ECDSAS", half, hash)
+	verifrt.Assume(r[0] != 0 && s[0] != 0)
+	return r, s
+}
+
+func stubDER(r, s *big.Int) []byte {
+	out := make([]byte, 1+2*72)
+	out[0] = 0x30
+	r.FillBytes(out[1:73])
+	s.FillBytes(out[73:])
+	return out
+}
+
+func stubP1363ECDSA(half int) {
+	verifrt.Summarize("crypto/ecdsa.Sign", func(_ io.Reader, _ *stdecdsa.PrivateKey, hash []byte) (*big.Int, *big.Int, error) {
+		r, s := idealRS(half, hash)
+		return new(big.Int).SetBytes(r), new(big.Int).SetBytes(s), nil
+	})
+	verifrt.Summarize("internal/signature/ecdsa.ASN1Encode", func(sig *internalecdsa.Signature) ([]byte, error) {
+		if len(sig.R.Bits()) > 9 || len(sig.S.Bits()) > 9 {
+			return nil, errStub
+		}
+		return stubDER(sig.R, sig.S), nil
+	})
+	verifrt.Summarize("crypto/ecdsa.VerifyASN1", func(_ *stdecdsa.PublicKey, hash, sig []byte) bool {
+		r, s := idealRS(half, hash)
+		return verifrt.EqBytes(sig, stubDER(new(big.Int).SetBytes(r), new(big.Int).SetBytes(s)))
+	})
+}
+
+var errStub = errors.New("stub")
+
+func p1363Setup(ci int) (s *signer, v *verifier, prefix []byte, kind, size int, hf func() hash.Hash) {
+	curve := [...]struct {
+		name string
+		ct   CurveType
+		size int
+		ht   HashType
+		hf   func() hash.Hash
+	}{{"P-256", NistP256, 64, SHA256, sha256.New}, {"P-384", NistP384, 96, SHA384, sha512.New384}, {"P-521", NistP521, 132, SHA512, sha512.New}}[ci]
+	kind = verifrt.Choice("variant", 4)
+	variant := [...]Variant{VariantTink, VariantCrunchy, VariantLegacy, VariantNoPrefix}[kind]
+	id := verifrt.Uint32("id")
+	if kind == 3 {
+		id = 0
+	}
+	prefix = verifspec.Prefix(kind, id)
+	params := &Parameters{curveType: curve.ct, hashType: curve.ht, signatureEncoding: IEEEP1363, variant: variant}
+	realHash, err := hashFunctionFromEnum(curve.ht)
+	verifrt.Assert(err == nil, "hashFunctionFromEnum")
+	c := stubCurve{p: &elliptic.CurveParams{Name: curve.name}}
+	s = &signer{key: &stdecdsa.PrivateKey{PublicKey: stdecdsa.PublicKey{Curve: c}}, prefix: prefix, parameters: params, hashFunc: realHash}
+	v = &verifier{key: &stdecdsa.PublicKey{Curve: c}, prefix: prefix, parameters: params, hashFunc: realHash}
+	stubP1363ECDSA(curve.size / 2)
+	return s, v, prefix, kind, curve.size, curve.hf
+}
+
+// P1363-encoded ECDSA: Sign == prefix || r || s (fixed width) over hash(msg [|| 0x00]);
+// Verify accepts exactly that among all strings of the same length, and rejects every other
+// length -- in particular the zero-padded re-encodings of the genuine (r, s) at the other
+// curves' sizes.
+func VerifH_sig_ecdsa_p1363_p256() { sigP1363(0) }
+func VerifH_sig_ecdsa_p1363_p384() { sigP1363(1) }
+func VerifH_sig_ecdsa_p1363_p521() { sigP1363(2) }
+
+func sigP1363(ci int) {
+	verifrt.EngineOnly() // opaque key objects and an ideal ECDSA: not executable natively
+	s, v, prefix, kind, size, hf := p1363Setup(ci)
+	msg := verifrt.Bytes("msg", verifrt.Choice("n", 2))
+	sig, err := s.Sign(msg)
+	verifrt.Assert(err == nil, "Sign succeeds")
+	h := hf()
+	h.Write(msg)
+	if kind == 2 {
+		h.Write([]byte{0})
+	}
+	r, sc := idealRS(size/2, h.Sum(nil))
+	want := slices.Concat(prefix, r, sc)
+	verifrt.AssertEq(sig, want, "signature == prefix || r || s (fixed width) over hash(msg [|| 0x00 for LEGACY])")
+	verifrt.Assert(v.Verify(sig, msg) == nil, "the matching verifier accepts")
+	switch verifrt.Choice("cand", 3) {
+	case 0:
+		if ci != 0 {
+			return // same-length alterations: P-256 only (big.Int normalisation forks per word)
+		}
+		delta := verifrt.Bytes("delta", len(want))
+		// candidates whose r and s keep a non-zero top byte (big.Int normalisation would
+		// otherwise fork per word; leading zeros are covered by VerifH_p1363_decode_*)
+		verifrt.Assume(delta[len(prefix)] != want[len(prefix)] && delta[len(prefix)+size/2] != want[len(prefix)+size/2])
+		err := v.Verify(verifspec.XorDelta(want, delta), msg)
+		verifrt.Assert((err == nil) == verifrt.EqBytes(delta, make([]byte, len(want))), "Verify accepts exactly the genuine signature bytes (same length)")
+	case 1:
+		l := [...]int{0, 4, 5, len(want) - 1, len(want) + 1, len(want) + 2}[verifrt.Choice("len", 6)]
+		verifrt.Assume(l != len(want))
+		cand := verifrt.Bytes("cand", l)
+		for i := 0; i < l && i < len(want); i++ {
+			cand[i] = want[i]
+		}
+		verifrt.Assert(v.Verify(cand, msg) != nil, "truncated / extended signature rejected, no panic")
+	default:
+		other := [...]int{64, 96, 132, 134}[verifrt.Choice("other", 4)]
+		verifrt.Assume(other > size)
+		pad := make([]byte, (other-size)/2)
+		cand := slices.Concat(prefix, pad, r, pad, sc)
+		verifrt.Assert(v.Verify(cand, msg) != nil, "zero-padded re-encoding of the genuine (r, s) at another size rejected")
 	}
 	verifrt.Reach("end")
 }
